@@ -231,3 +231,7 @@ Definition wf_kws (kws : list str) : bool :=
 Definition is_py_name (kws : list str) (w : str) : bool :=
   negb (match w with [] => true | _ => false end) && forallb is_word w && negb (starts_digit w) &&
   negb (mem w kws) && negb (str_eqb w s_and) && negb (str_eqb w s_or).
+
+(* the reserved prefix does not begin a keyword (nor and/or): a prefixed word is never a keyword *)
+Definition wf_prefix (P : str) (kws : list str) : bool :=
+  forallb (fun k => negb (prefixb P k)) (s_and :: s_or :: kws).
